@@ -122,6 +122,13 @@ func GenSet(r Rand, maxWords int) (*Set, []byte, GenInfo) {
 	default:
 		n = 1000 + r.Intn(4001)
 	}
+	if maxWords >= 5000 { // the large cases
+		if r.Intn(3) == 0 {
+			n = 100 + r.Intn(900)
+		} else {
+			n = 1000 + r.Intn(4001)
+		}
+	}
 	if n > maxWords {
 		n = maxWords
 	}
